@@ -15,6 +15,9 @@ VERIF = os.path.dirname(os.path.dirname(os.path.abspath(__file__)))
 HARNESS = os.path.join(VERIF, "harness")
 BUILD = os.path.join(VERIF, "build")
 EVID = os.path.join(VERIF, "evidence")
+if os.environ.get("VERIF_NOEVIDENCE"):
+    # runs against a substituted tree (seeded mutations) must not overwrite the evidence of /repo
+    EVID = os.path.join(BUILD, "scratch-evidence")
 GOENV = dict(os.environ, GOFLAGS="-mod=mod", GOPROXY="off", GOSUMDB="off", GOTOOLCHAIN="local", CGO_ENABLED="1")
 
 
